@@ -55,3 +55,54 @@ Theorem C04_step_lift : forall low i sp r o gap c o',
   (low + 30 * i + o) + gap * (30 * sp + r) = low + 30 * (i + gap * sp + c) + o'.
 Proof. exact step_lift. Qed.
 Print Assumptions C04_step_lift.
+
+(** ---- the sieve kernel proper (EratSmall; EratMedium uses the same step semantics with its own table) *)
+From PS Require Import Model.Wheel Model.CrossOff Proofs.CrossOffP Proofs.KernelP Proofs.KernelInitP.
+
+(** the cross-off loop for one sieving prime in one segment computes its specification (the multiples prime*q
+    for the successive cofactors coprime to 30) and leaves the state of the next multiple - every sieving
+    prime, segment base, size, starting cofactor; both extracted step tables *)
+Theorem C04_cross_off_refines : forall steps, steps = eratSmallSteps \/ steps = eratMediumSteps ->
+  forall fuel size low sp ri qi q i cl i' w',
+  Inv low sp ri qi q i ->
+  cross fuel steps size sp i (8 * ri + qi) = Some (cl, i', w') ->
+  exists qe qie, spec_cross fuel low size (sprime sp ri) q = Some (cl, qe) /\
+                 Inv (low + 30 * size) sp ri qie qe i' /\ w' = 8 * ri + qie.
+Proof.
+  exact (fun steps H => match H with
+                        | or_introl e => eq_ind_r (fun s => forall fuel size low sp ri qi q i cl i' w', Inv low sp ri qi q i -> cross fuel s size sp i (8 * ri + qi) = Some (cl, i', w') -> exists qe qie, spec_cross fuel low size (sprime sp ri) q = Some (cl, qe) /\ Inv (low + 30 * size) sp ri qie qe i' /\ w' = 8 * ri + qie) (cross_refines eratSmallSteps eratSmallSteps_entries) e
+                        | or_intror e => eq_ind_r (fun s => forall fuel size low sp ri qi q i cl i' w', Inv low sp ri qi q i -> cross fuel s size sp i (8 * ri + qi) = Some (cl, i', w') -> exists qe qie, spec_cross fuel low size (sprime sp ri) q = Some (cl, qe) /\ Inv (low + 30 * size) sp ri qie qe i' /\ w' = 8 * ri + qie) (cross_refines eratMediumSteps eratMediumSteps_entries) e
+                        end).
+Qed.
+Print Assumptions C04_cross_off_refines.
+
+(** the kernel theorem for one segment: with every prime 7 <= p, p*p <= high present as a sieving prime in a
+    correct and minimal state, after the cross-off the bit of a number n of the segment is still set iff n is
+    prime; and the states handed to the next segment are again correct and minimal (cross_all_spec) *)
+Theorem C04_kernel_segment : forall fuel low size high (ws : list wstate) cleared sts',
+  low mod 30 = 0 -> low + 30 * size + 1 <= high ->
+  Forall (w_ok low) ws ->
+  (forall p, prime p -> 7 <= p -> p * p <= high -> In p (map w_prime ws)) ->
+  cross_all fuel eratSmallSteps size (map w_state ws) = Some (cleared, sts') ->
+  forall n, coprime30 n -> low + 7 <= n -> byteof low n < size -> 7 <= n ->
+  (~ In (byteof low n, maskof n) cleared <-> prime n).
+Proof. exact (kernel_segment eratSmallSteps eratSmallSteps_entries). Qed.
+Print Assumptions C04_kernel_segment.
+
+Theorem C04_kernel_next_states : forall fuel low size, low mod 30 = 0 -> forall (ws : list wstate) cleared sts',
+  Forall (w_ok low) ws ->
+  cross_all fuel eratSmallSteps size (map w_state ws) = Some (cleared, sts') ->
+  (forall b m, In (b, m) cleared <-> exists x q', In x ws /\ w_q x <= q' /\ coprime30 q' /\ byteof low (w_prime x * q') < size /\
+                                          b = byteof low (w_prime x * q') /\ m = maskof (w_prime x * q')) /\
+  exists ws', Forall (w_ok (low + 30 * size)) ws' /\ map w_prime ws' = map w_prime ws /\ map w_state ws' = sts'.
+Proof. exact (cross_all_spec eratSmallSteps eratSmallSteps_entries). Qed.
+Print Assumptions C04_kernel_next_states.
+
+(** Wheel::addSievingPrime (wheel30Init / wheelOffsets_ from the source) stores a new sieving prime in exactly
+    such a state: the least cofactor q >= prime coprime to 30 with prime*q > segmentLow + 6 *)
+Theorem C04_addSievingPrime_state : forall stop p low mi wi,
+  prime p -> 7 <= p -> p < 2 ^ 32 -> low mod 30 = 0 -> stop <= MAX64 -> low + 6 <= MAX64 ->
+  addSievingPrime30 stop p low = Some (mi, wi) ->
+  exists ri qi q, wi = 8 * ri + qi /\ sprime (p / 30) ri = p /\ w_ok low (p / 30, ri, qi, q, mi) /\ p * q <= stop.
+Proof. exact asp30_state_ok. Qed.
+Print Assumptions C04_addSievingPrime_state.
